@@ -190,6 +190,11 @@ func (d *Decoder) DecodeLength() (uint64, error) {
 	if err != nil {
 		return 0, err
 	}
+	// every element of a sequence occupies at least one byte, so a length
+	// larger than the remaining input can only come from malformed data
+	if length > uint64(d.buf.Len()) {
+		return 0, fmt.Errorf("sequence length %d exceeds the %d remaining bytes", length, d.buf.Len())
+	}
 	cLog(Yellow, "Slice Length: %v", length)
 	return length, nil
 }
